@@ -232,6 +232,19 @@ theorem C10_group_key_rsplit_counterexample :
     subKey "build".toList "build:linux:x86".toList = "linux:x86".toList ∧
     subKey "build".toList "build:mac:x86".toList = "mac:x86".toList := by decide
 
+/-- an execution whose values can not be saved (`completeOk actionsOk false = false`) leaves no record and no value:
+    the next status check of the task has nothing recorded (it runs again), and a keyed getargs on it is an error,
+    never the value the actions computed -/
+theorem C10_unsaveable_execution_leaves_nothing (h : List IOp) (t : Name) (actionsOk : Bool)
+    (ws : List (Path × Nat × Nat)) (res : Option Res) (hal : (runI h).crashed = false) :
+    (runI (h ++ [.complete t (completeOk actionsOk false) ws res])).shadow t = none ∧
+    ∀ (ops : List VOp) (k : Key), getArg (vrun (ops ++ [.remove t])) none t (some k) = .error .noRecord := by
+  constructor
+  · have hal' : (List.foldl istep St.init h).crashed = false := hal
+    simp [runI, List.foldl_append, istep, completeOk, hal', finish, erase]
+  · intro ops k
+    exact C10_getargs_after_remove ops t k
+
 /-! ## calc_dep results in the same run -/
 
 /-- **C10, calc_dep.**  `update_deps` with the file_dep delivered by a calc_dep task is a redefinition of the
